@@ -21,7 +21,8 @@ from .poly import Rat, func_atom, single_atom
 from .symeval import (Evaluator, Arr, Opaque, Obj, RaiseReached, dict_key, const_int, vkey, _Return)
 
 _IMPORT_CACHE: dict = {}
-KIND: dict = {}        # numeric atom -> 'float' | 'int'
+KIND: dict = {}        # numeric atom -> 'float' | 'int' | 'bigint' (an int beyond 2**53 that no double represents exactly)
+INTKINDS = ("int", "bigint")
 POSITIVE: set = set()  # atoms known to be >= 1 (lengths of words)
 
 
@@ -690,9 +691,15 @@ class ObjEvaluator(Evaluator):
             self.hand_down(node.slice, sv)
         if isinstance(base, dict):
             k = dict_key(self.eval(node.slice, env))
+            if isinstance(k, Rat) and self.numeric_table_lookup(base, k):
+                raise PyRaise("KeyError", node, k.key())          # the generic number is none of the tabulated ones
             if isinstance(k, (Rat, Sym, SStr)):
                 raise AnalysisError("E7: lookup with a non-constant key (line %d)" % node.lineno)
-            if k not in base:
+            try:
+                present = k in base
+            except TypeError:
+                raise PyRaise("TypeError", node, "unhashable key")
+            if not present:
                 raise PyRaise("KeyError", node, repr(k))
             return base[k]
         if isinstance(base, list) and not isinstance(node.slice, (ast.Slice, ast.Tuple)):
@@ -929,6 +936,14 @@ class ObjEvaluator(Evaluator):
                 a, b = Rat.const(1), Rat.const(0)
             elif ok and coefs and all(c_ < 0 for c_ in coefs) and lo + sum(coefs) < 0:
                 a, b = Rat.const(-1), Rat.const(0)
+        if isinstance(op, (ast.Eq, ast.NotEq)) and isinstance(a, Rat) and isinstance(b, Rat):
+            # int == float(int): Python compares the exact values, so it holds iff the int is exactly representable
+            for x_, y_ in ((a, b), (b, a)):
+                ax_ = single_atom(x_)
+                if ax_ in KIND and KIND[ax_] in INTKINDS and y_.equals(func_atom("float", x_)):
+                    r = KIND[ax_] == "int"
+                    return r if isinstance(op, ast.Eq) else not r
+
         def type_name(t_):
             return t_[1] if isinstance(t_, tuple) and len(t_) == 2 and t_[0] in ("builtin", "type", "typeobj") and isinstance(t_[1], str) \
                 and t_[1] in ("str", "int", "float", "bool", "list", "tuple", "dict", "NoneType", "object", "other") else None
@@ -948,6 +963,8 @@ class ObjEvaluator(Evaluator):
                 and all(isinstance(k_, str) for k_ in b):
             self.__dict__.setdefault("literals_met", []).extend(k_ for k_ in b if k_ not in self.__dict__.get("literals_met", []))
             return isinstance(op, ast.NotIn)          # the generic text is none of the listed constants (see method_call)
+        if isinstance(op, (ast.In, ast.NotIn)) and isinstance(b, dict) and isinstance(a, Rat) and not a.is_const() and self.numeric_table_lookup(b, a):
+            return isinstance(op, ast.NotIn)
         if isinstance(op, (ast.In, ast.NotIn)) and isinstance(b, dict):
             k = dict_key(a)
             try:
@@ -1021,7 +1038,7 @@ class ObjEvaluator(Evaluator):
         if isinstance(v, Rat):
             a = single_atom(v)
             if a in KIND:
-                return KIND[a]
+                return "int" if KIND[a] in INTKINDS else KIND[a]
             if a is not None and a.startswith("float("):
                 return "float"
             if v.is_const():
@@ -1043,8 +1060,8 @@ class ObjEvaluator(Evaluator):
         if isinstance(v, Rat):
             a = single_atom(v)
             if which == "float":
-                return func_atom("float", v) if a in KIND and KIND[a] == "int" else v
-            if a in KIND and KIND[a] == "int":
+                return func_atom("float", v) if a in KIND and KIND[a] in INTKINDS else v
+            if a in KIND and KIND[a] in INTKINDS:
                 return v
             if v.is_const():
                 return Rat.const(int(v.const_value()))
@@ -1072,7 +1089,7 @@ class ObjEvaluator(Evaluator):
                 a = core_parts[0].atom
                 if which == "float":
                     return Rat.atom(a) if KIND[a] == "float" else func_atom("float", Rat.atom(a))
-                if KIND[a] == "int":
+                if KIND[a] in INTKINDS:
                     return Rat.atom(a)
                 raise PyRaise("ValueError", node, "int of the text of a float")
             raise PyRaise("ValueError", node, "%s of text %s" % (which, v.key()))
@@ -1169,8 +1186,22 @@ class ObjEvaluator(Evaluator):
             return None
         return Evaluator.builtin(self, name, args, kwargs, node)
 
+    def numeric_table_lookup(self, table, key):
+        """a symbolic number looked up in a table whose keys are numeric constants: the generic number is not a key (the
+        caller answers `missing`); the keys are its special values, recorded in NUMERIC_CASES for the rule to replay"""
+        from fractions import Fraction
+        if not table or not all(isinstance(k_, (int, Fraction)) and not isinstance(k_, bool) for k_ in table):
+            return False
+        rec = (key.key(), tuple(sorted(table)))
+        if rec not in NUMERIC_CASES:
+            NUMERIC_CASES.append(rec)
+        return True
+
     def method_call(self, base, attr, args, kwargs, node):
         from .symeval import NTuple
+        if isinstance(base, dict) and attr in ("get", "__contains__") and args and isinstance(args[0], Rat) and not args[0].is_const() \
+                and self.numeric_table_lookup(base, args[0]):
+            return False if attr == "__contains__" else (args[1] if len(args) == 2 else None)
         if isinstance(base, NTuple):
             if attr == "_replace" and not args:
                 vals = list(base)
@@ -1395,6 +1426,9 @@ class ObjEvaluator(Evaluator):
         if getattr(self, "allow_opaque_calls", False) or name in getattr(self.mod, "functions", {}):
             return Evaluator.opaque_call(self, name, args, kwargs, node)
         raise AnalysisError("E7: call of `%s` is not modelled (line %d)" % (name, getattr(node, "lineno", 0)))
+
+
+NUMERIC_CASES = []      # (key of the symbolic number, the tabulated constants it was looked up among)
 
 
 class FullEvaluator(ObjEvaluator):
